@@ -7,6 +7,12 @@ CHECKS = {
     "C01": {"quick": [("pr", 6000)], "thorough": [("pr", 150000)]},
     "C09": {"quick": [("pr", 6000)], "thorough": [("pr", 150000)]},
     "C19": {"quick": [("pr", 6000)], "thorough": [("pr", 150000)]},
+    "C02": {"quick": [("co", 2500)], "thorough": [("co", 60000)]},
+    "C03": {"quick": [("co", 2500)], "thorough": [("co", 60000)]},
+    "C13": {"quick": [("co", 2500)], "thorough": [("co", 60000)]},
+    "C14": {"quick": [("co", 2500)], "thorough": [("co", 60000)]},
+    "C12": {"quick": [("co", 2500)], "thorough": [("co", 60000)]},
+    "C05": {"quick": [("co", 2500)], "thorough": [("co", 60000)]},
     "C04": {"quick": [("pr", 6000)], "thorough": [("pr", 100000)]},
     "C18": {"quick": [("pr", 6000)], "thorough": [("pr", 150000)]},
     "C08": {"quick": [("pr", 6000)], "thorough": [("pr", 100000)]},
